@@ -33,7 +33,7 @@ func init() {
 		Check:           c09Check,
 		DistinctClasses: []string{"link-class"},
 		MinEvaluations:  func(tier string) int64 { return 2000 },
-		RequiredCounts:  []string{"documents_linked", "documents_relinked_to_second_schema", "documents_linked_under_rule_subset", "deep_chain_documents", "links:Field.Definition", "links:Value.ExpectedType(list-item)", "links:Value.ExpectedType(input-field)", "links:Value.VariableDefinition", "links:Directive.Definition", "links:FragmentSpread.Definition"},
+		RequiredCounts:  []string{"documents_linked", "documents_relinked_to_second_schema", "documents_linked_under_rule_subset", "deep_chain_documents", "load_query_pairs", "links:Field.Definition", "links:Value.ExpectedType(list-item)", "links:Value.ExpectedType(input-field)", "links:Value.VariableDefinition", "links:Directive.Definition", "links:FragmentSpread.Definition"},
 	})
 }
 
@@ -406,6 +406,19 @@ func c09Check(x *core.Ctx, c *core.Case) {
 		if err == nil && len(validator.Validate(second, doc)) == 0 {
 			x.Count("documents_relinked_to_second_schema")
 			c09Links(x, second, doc, "revalidated:")
+		}
+	}
+	// the convenience entry point: the document LoadQuery returned for the first schema still points into the first schema
+	// after the same text was loaded for a second schema (each call owns the tree it returns)
+	if core.HashString(c.Get("doc"))%5 == 2 {
+		if second, err := gqlparser.LoadSchema(&ast.Source{Name: "schema.graphql", Input: c.Get("schema")}); err == nil {
+			d1, e1 := gqlparser.LoadQuery(schema, c.Get("doc"))
+			d2, e2 := gqlparser.LoadQuery(second, c.Get("doc"))
+			if len(e1) == 0 && len(e2) == 0 && d1 != nil && d2 != nil {
+				x.Count("load_query_pairs")
+				c09Links(x, schema, d1, "LoadQuery(first-after-second):")
+				c09Links(x, second, d2, "LoadQuery(second):")
+			}
 		}
 	}
 	if x.WantSample() && len(c.Get("doc")) < 500 {
